@@ -262,7 +262,7 @@ def run(ctx):
         f0 = [abstract_file(f, rn.comp[n]) for f in sorted(os.listdir(tmpls[n]))]
         if sc["run"] != "ref" and sc["r"]["files"] not in (f0, refs[n]["files"]):
             nontrivial += 1
-    for sc in scen[len(cfgs):len(cfgs) + 400:89]:
+    for sc in scen[len(cfgs)::max(1, (len(scen) - len(cfgs)) // 5)]:
         ctx.sample({"config": cname(sc["cfg"]), "run": sc["run"], "point": sc["point"],
                     "files": ["%s%d" % (f["k"], f["i"]) for f in sc["r"]["files"]], "view": sc["r"]["view"]["view"]})
     ctx.assumptions += [
